@@ -29,6 +29,7 @@ type SrcField struct {
 	AtTag   bool      `json:"attag,omitempty"` // trailing comment contains "@tag "
 	Inject  []TagItem `json:"inject,omitempty"`
 	InjTail string    `json:"injtail,omitempty"` // junk after the injected items
+	Tight   bool      `json:"tight,omitempty"`   // line comment written without a blank after the slashes
 }
 
 // SrcDecl is a top-level declaration.
@@ -141,7 +142,11 @@ func (s *SrcFile) Render() (string, []Span) {
 				if f.Block {
 					b.WriteString(" /* " + cmt + " */")
 				} else {
-					b.WriteString(" // " + cmt)
+					if f.Tight {
+						b.WriteString(" //" + cmt) // no blank after the slashes (with the right prose it reads like a tool directive)
+					} else {
+						b.WriteString(" // " + cmt)
+					}
 				}
 			}
 			b.WriteString(nl)
@@ -242,7 +247,7 @@ func genTagVal(t *rapid.T, label string) string {
 }
 
 var fieldTypes = []string{"string", "int32", "int64", "bool", "[]string", "map[string]int32", "*Other", "[]*Other", "float64", "[]byte", "protoimpl.MessageState", "func(a string) error", "chan int", "interface{}", "struct{}"}
-var prosePool = []string{"", "", "姓名 ", "name of the thing ", "年龄, 单位: 岁 ", "see `code` ", "a // b ", "é😀 ", "100% sure ", "valid:\"x\" is not injected here "}
+var prosePool = []string{"nolint:lll // ", "export E ", "go:generate stringer ", "line x.go:1 ", "todo:1 later ", "", "", "姓名 ", "name of the thing ", "年龄, 单位: 岁 ", "see `code` ", "a // b ", "é😀 ", "100% sure ", "valid:\"x\" is not injected here "}
 
 func genSrcField(t *rapid.T, idx int, allowNoTagAnnotated bool) SrcField {
 	f := SrcField{Names: fmt.Sprintf("F%d", idx), Type: rapid.SampledFrom(fieldTypes).Draw(t, "ftype")}
@@ -289,6 +294,7 @@ func genSrcField(t *rapid.T, idx int, allowNoTagAnnotated bool) SrcField {
 		f.HasCmt = true
 		f.Prose = rapid.SampledFrom(prosePool).Draw(t, "prose")
 		f.Block = rapid.IntRange(0, 6).Draw(t, "block") == 0
+		f.Tight = rapid.IntRange(0, 3).Draw(t, "tight") == 2
 		if f.Block {
 			f.Prose = strings.ReplaceAll(f.Prose, "//", "")
 		}
